@@ -950,6 +950,73 @@ func (g *gen05) boundaries() {
 }
 
 // ------------------------------------------------------------------------------------------------
+// character sweep: every class of byte at the first / a middle / the last position of each part of the kind,
+// of the device name and of an annotation key (documents only, one small device). The characters that are legal
+// in one kind of name or position but not in another are always included; the others are sampled in the quick tier.
+func (g *gen05) sweep(tier string) {
+	critical := []string{":", ".", "_", "-", "0", "/", "=", "A"}
+	others := []string{" ", "!", "\"", "#", "$", "%", "&", "'", "(", ")", "*", "+", ",", ";", "<", ">", "?", "@", "[", "\\", "]", "^", "`", "{", "|", "}", "~",
+		"z", "9", "é", "K", "\t"}
+	put := func(s string, pos int, ch string) string { // s has 5 bytes
+		switch pos {
+		case 0:
+			return ch + s[1:]
+		case 1:
+			return s[:2] + ch + s[3:]
+		}
+		return s[:4] + ch
+	}
+	posName := []string{"first", "middle", "last"}
+	emit := func(what string, pos int, ch string, kind, name, key string) {
+		s := &specs.Spec{Version: "1.0.0", Kind: kind, Devices: []specs.Device{{Name: name, ContainerEdits: specs.ContainerEdits{Env: []string{"A=b"}}}}}
+		if key != "" {
+			s.Annotations = map[string]string{key: "v"}
+		}
+		g.addDoc("sweep/"+what, map[string]interface{}{"part": what, "position": posName[pos], "character": hx.JS(ch)}, specText05(s), "", true, false)
+	}
+	for _, set := range [][]string{critical, others} {
+		for _, ch := range set {
+			for pos := 0; pos < 3; pos++ {
+				always := &set[0] == &critical[0]
+				take := func() bool { return always || tier == "thorough" || g.r.Chance(0.08) }
+				if take() {
+					emit("vendor", pos, ch, put("vendr", pos, ch)+"/class", "dev", "")
+				}
+				if take() {
+					emit("class", pos, ch, "vendor.com/"+put("class", pos, ch), "dev", "")
+				}
+				if take() {
+					emit("device name", pos, ch, "vendor.com/class", put("devic", pos, ch), "")
+				}
+				if take() {
+					emit("annotation key prefix", pos, ch, "vendor.com/class", "dev", put("prefx", pos, ch)+"/name")
+				}
+				if take() {
+					emit("annotation key name", pos, ch, "vendor.com/class", "dev", "pre.fix/"+put("aname", pos, ch))
+				}
+			}
+		}
+	}
+	// device edits made of explicitly empty or null members only, at every device (still "empty edits")
+	for k := 0; k < 3; k++ {
+		for _, txt := range []string{`{"env":[]}`, `{"deviceNodes":[]}`, `{"hooks":[],"mounts":[]}`, `{"additionalGids":[]}`, `{"intelRdt":null}`,
+			`{"env":null,"additionalGids":null}`, `{"env":[],"deviceNodes":[],"hooks":[],"mounts":[],"additionalGids":[],"intelRdt":null}`, `null`} {
+			if tier != "thorough" && !g.r.Chance(0.5) {
+				continue
+			}
+			tree, err := parseD([]byte(specText05(g.compact("env", 1))))
+			if err != nil {
+				panic(err)
+			}
+			e, _ := parseD([]byte(txt))
+			tree.Get("devices").A[k].Set("containerEdits", e)
+			g.addDoc("defect/empty device edits (explicitly empty members)", map[string]interface{}{"defect": "empty device edits", "place": placeName(k), "containerEdits": txt},
+				tree.JSON(), "", true, false)
+		}
+	}
+}
+
+// ------------------------------------------------------------------------------------------------
 // the malformed stream (documents only)
 
 // schema of the document tree: member name -> (is a list, struct kind of the value / element)
@@ -1087,7 +1154,7 @@ func (g *gen05) malformed(tier string) {
 		st0 := sites05(base)[i]
 		for mi := range st0.obj.O {
 			for vi, v := range wrongValues05() {
-				if !take(0.10) {
+				if !take(0.15) {
 					continue
 				}
 				t := base.Clone()
@@ -1106,7 +1173,7 @@ func (g *gen05) malformed(tier string) {
 				continue
 			}
 			for vi, v := range wrongValues05() {
-				if !take(0.12) {
+				if !take(0.2) {
 					continue
 				}
 				t := base.Clone()
@@ -1140,7 +1207,7 @@ func (g *gen05) malformed(tier string) {
 				continue
 			}
 			for _, lit := range intVals {
-				if !take(0.15) {
+				if !take(0.25) {
 					continue
 				}
 				t := base.Clone()
@@ -1215,7 +1282,9 @@ func genC05(r *hx.R, tier string, scratch string) (*hx.Suite, error) {
 		Rule: "Well-formed Specs over option vectors covering every pair of the 32 optional fields in all four on/off combinations (1-3 devices, 1-3 list " +
 			"elements, declared version anywhere from the required one up) and boundary values; then ONE defect of each kind (22 kinds) at the spec level and " +
 			"at the first/middle/last of three devices, at the first/last (thorough: also middle) of three list elements; each Spec is written as JSON and " +
-			"as YAML and pushed through cdi.ReadSpec, Cache.Refresh+GetErrors, and as a typed value through Cache.WriteSpec (.json and .yaml). Malformed stream " +
+			"as YAML and pushed through cdi.ReadSpec, Cache.Refresh+GetErrors, and as a typed value through Cache.WriteSpec (.json and .yaml). Character sweep: " +
+			"every class of byte at the first/middle/last position of vendor, class, device name, annotation-key prefix and name (the characters legal in only " +
+			"some of these always, the rest sampled in quick). Malformed stream " +
 			"(documents only): unknown member at every object of the tree, case variants of member names (incl. U+212A / U+017F), every member value / list " +
 			"element / map value replaced by a value of every JSON type, integer members around the limits of their Go types, top-level non-objects and null " +
 			"placements, YAML-only scalar spellings. Non-trivial: everything except nothing (every case has optional fields or a defect).",
@@ -1223,6 +1292,10 @@ func genC05(r *hx.R, tier string, scratch string) (*hx.Suite, error) {
 	g := &gen05{r: r, s: s, scratch: scratch, stats: map[string]int{}}
 	// well-formed Specs, pairwise coverage of the optional fields
 	vecs := pairwise05(r)
+	if tier == "thorough" { // two further, independently drawn covering sets
+		vecs = append(vecs, pairwise05(r)[2:]...)
+		vecs = append(vecs, pairwise05(r)[2:]...)
+	}
 	for i, on := range vecs {
 		b := &builder05{r: r, on: on, m: 1 + r.Intn(3), vary: i >= 2}
 		sp := b.spec(1 + r.Intn(3))
@@ -1237,6 +1310,10 @@ func genC05(r *hx.R, tier string, scratch string) (*hx.Suite, error) {
 	}
 	g.boundaries()
 	g.defects(tier)
+	if tier == "thorough" { // the same positions again with other randomly chosen bad values
+		g.defects("quick")
+	}
+	g.sweep(tier)
 	g.malformed(tier)
 	s.Extra = map[string]interface{}{"x_option_vectors": len(vecs), "x_stats": g.stats}
 	return s, nil
